@@ -376,6 +376,9 @@ func genAdmCase(g *Rng) AdmCase {
 		default:
 			q.Path = g.PickS([]string{"/", "/v1/unknown", "/v1/backends/", "/v1/health/", "/v2/backends", "/v1/backends/add/x"})
 		}
+		if g.Chance(12) { // methods no endpoint is written for: the token and the filter come first whatever the method
+			q.Method = g.PickS([]string{"OPTIONS", "HEAD", "PUT", "PATCH", "TRACE", "OPTIONS"})
+		}
 		c.Reqs = append(c.Reqs, q)
 	}
 	return c
